@@ -2,7 +2,7 @@
 //! properties: C14
 //! note: the per-hop instructions the sender puts in the onion: build_onion_payloads_callback (amount to forward, outgoing expiry and next channel of every hop; the final hop's amount and expiry; the totals the sender must lock in)
 //! trusted: R5: the generics are instantiated as at the payment call site: H = reversed iterator over a Vec<RouteHop> (hop = &hops[n-1-idx]), OP = the Payload enum below (a field skeleton of msgs::OutboundOnionPayload keeping amounts, expiries and next-hop ids; its new_* constructors are written here from the `impl OnionPayload for msgs::OutboundOnionPayload` in the same file and are NOT extracted: recipient fields, keysend preimage, encrypted TLVs and packets are dropped), F = "insert into the result vector at the back / at the front" (what build_onion_payloads's closure does); PathHop accessors of &RouteHop are extracted
-//! trusted: R6: `for (idx, hop) in hops.rev().enumerate()` and `for (i, blinded_hop) in hops.iter().enumerate()` become index loops; push_back / push_front are external_body wrappers of Vec::push / Vec::insert(0, _) with the sequence semantics
+//! trusted: R6: `for (idx, hop) in hops.rev().enumerate()` and `for (i, blinded_hop) in hops.iter().enumerate()` become index loops with inductive invariants (the function carries #[verifier::loop_isolation(false)]: facts about variables a loop does not modify need not be restated); push_back / push_front are external_body wrappers of Vec::push / Vec::insert(0, _) with the sequence semantics
 //! trusted: env: APIError::InvalidRoute carries no message (rewrite of `err: <string>`); RecipientOnionFields skeleton {total_mpp_amount_msat, custom_tlvs}; PublicKey, PaymentPreimage, InvoiceRequest, TrampolineOnionPacket, BlindedHop opaque/skeleton; assume_specification for Option::take (std definition)
 //! trusted: process_failure_packet: AttributionData skeleton with external_body shift_right (verified for the real type in u14 / Kani); update_attribution_data external_body (leaves attribution data present and the data untouched: get_or_insert + update); update_fail_htlc_wire_len external_body returning the uninterpreted wire size (a function of the data length and the presence of attribution data); R8: `if let Some(ref mut x) = e { .. }` -> match on &mut e
 //! trusted: R15: decode_next_hop: the statements up to the HMAC test verbatim as a function (key derivation external_body over uninterpreted rho_of/mu_of; HmacEngine is a stub that records key and the concatenation of its inputs in ghost fields; Hmac::from_engine is the uninterpreted hmac_sha256 of those; fixed_time_eq is equality); decrypting and parsing the payload after the gate are dropped and not claimed
@@ -11,7 +11,7 @@
 //! trusted: R15 (deep slice): create_payment_onion_internal from the build_onion_payloads call to the end, verbatim; build_onion_payloads / construct_onion_keys / construct_onion_packet are external_body over uninterpreted payloads, keys and packet (build_onion_payloads' amounts are proved above for build_onion_payloads_callback; the packet construction itself is not verified); R8: `.map_err(|_| APIError::InvalidRoute { err: <string> })` loses its message; the call of build_trampoline_onion_payloads (arguments verbatim; the deferred `let a; let b; (a, b) = f()?` is written `let (a, b) = f()?`) over an uninterpreted payload builder
 //! trusted: R15 (deep slice): build_onion_payloads: the body of the closure that turns the path's blinded tail into the TailDetails handed to build_onion_payloads_callback, verbatim as a function of the tail (skeleton {hops, blinding_point, excess_final_cltv_expiry_delta, final_value_msat}) and the optional trampoline packet; how build_onion_payloads_callback uses a Blinded tail is kept in the verified text but not claimed (see the assume line)
 //! assume: every hop's fee_msat <= 21e17 (the total supply in msat): without it `cur_value_msat += hop.fee_msat()` can overflow u64 before the limit test (observation O5 in DESIGN)
-//! assume: the contract is for a path without blinded or trampoline tail (blinded_tail is None) whose final hop carries a non-zero amount; the other arms are kept in the verified text but unreachable under this precondition and not claimed
+//! assume: something is delivered past the last unblinded hop (tail amount + the last hop's fee_msat > 0: with a zero running total the source substitutes the hop's own fee for the amount to forward); a blinded tail has at least one hop, its final amount is at most 21e17 msat and cur_block_height + excess_final_cltv_expiry_delta fits in u32 (`cur_block_height + excess_final_cltv_expiry_delta` is computed unchecked: observation O5)
 //! trusted: assume_specification for core::cmp::max / core::cmp::min (std definitions): present in every unit so that a change that introduces them is verified instead of being rejected by the tool
 use vstd::prelude::*;
 verus! {
@@ -24,7 +24,7 @@ pub assume_specification<T: core::cmp::Ord>[core::cmp::min::<T>](a: T, b: T) -> 
 #[derive(Clone, Copy)] pub struct PublicKey(pub [u8; 33]);
 #[derive(Clone, Copy)] pub struct PaymentPreimage(pub [u8; 32]);
 pub struct InvoiceRequest {}
-pub struct TrampolineOnionPacket {}
+pub struct TrampolineOnionPacket { pub id: u64 }
 pub struct BlindedHop { pub encrypted_payload: Vec<u8> }
 pub struct RecipientOnionFields { pub total_mpp_amount_msat: u64, pub custom_tlvs: Vec<(u64, Vec<u8>)> }
 pub enum APIError { InvalidRoute { err: () } }
@@ -32,9 +32,10 @@ pub struct RouteHop { pub short_channel_id: u64, pub fee_msat: u64, pub cltv_exp
 pub enum Payload {
     Forward { short_channel_id: u64, amt_to_forward: u64, outgoing_cltv_value: u32 },
     Receive { sender_intended_htlc_amt_msat: u64, cltv_expiry_height: u32 },
-    BlindedForward,
-    BlindedReceive { sender_intended_htlc_amt_msat: u64, total_msat: u64, cltv_expiry_height: u32 },
-    TrampolineEntrypoint { amt_to_forward: u64, outgoing_cltv_value: u32 },
+    BlindedForward { encrypted_tlvs: Ghost<Seq<u8>>, intro_node_blinding_point: Option<PublicKey> },
+    BlindedReceive { sender_intended_htlc_amt_msat: u64, total_msat: u64, cltv_expiry_height: u32, encrypted_tlvs: Ghost<Seq<u8>>,
+                     intro_node_blinding_point: Option<PublicKey>, keysend_preimage: Option<PaymentPreimage> },
+    TrampolineEntrypoint { amt_to_forward: u64, outgoing_cltv_value: u32, trampoline_packet: TrampolineOnionPacket, current_path_key: Option<PublicKey> },
 }
 impl Payload {
     pub fn new_forward(short_channel_id: u64, amt_to_forward: u64, outgoing_cltv_value: u32) -> (r: Payload)
@@ -43,14 +44,18 @@ impl Payload {
     pub fn new_receive(recipient_onion: &RecipientOnionFields, keysend_preimage: Option<PaymentPreimage>, sender_intended_htlc_amt_msat: u64, cltv_expiry_height: u32) -> (r: Result<Payload, APIError>)
         ensures r == Ok::<Payload, APIError>(Payload::Receive { sender_intended_htlc_amt_msat, cltv_expiry_height })
     { Ok(Payload::Receive { sender_intended_htlc_amt_msat, cltv_expiry_height }) }
-    pub fn new_blinded_forward(encrypted_tlvs: &Vec<u8>, intro_node_blinding_point: Option<PublicKey>) -> Payload { Payload::BlindedForward }
+    pub fn new_blinded_forward(encrypted_tlvs: &Vec<u8>, intro_node_blinding_point: Option<PublicKey>) -> (r: Payload)
+        ensures r == (Payload::BlindedForward { encrypted_tlvs: Ghost(encrypted_tlvs@), intro_node_blinding_point })
+    { Payload::BlindedForward { encrypted_tlvs: Ghost(encrypted_tlvs@), intro_node_blinding_point } }
     pub fn new_blinded_receive(sender_intended_htlc_amt_msat: u64, total_msat: u64, cltv_expiry_height: u32, encrypted_tlvs: &Vec<u8>,
         intro_node_blinding_point: Option<PublicKey>, keysend_preimage: Option<PaymentPreimage>, invoice_request: Option<&InvoiceRequest>,
-        custom_tlvs: &Vec<(u64, Vec<u8>)>) -> Payload
-    { Payload::BlindedReceive { sender_intended_htlc_amt_msat, total_msat, cltv_expiry_height } }
+        custom_tlvs: &Vec<(u64, Vec<u8>)>) -> (r: Payload)
+        ensures r == (Payload::BlindedReceive { sender_intended_htlc_amt_msat, total_msat, cltv_expiry_height, encrypted_tlvs: Ghost(encrypted_tlvs@), intro_node_blinding_point, keysend_preimage })
+    { Payload::BlindedReceive { sender_intended_htlc_amt_msat, total_msat, cltv_expiry_height, encrypted_tlvs: Ghost(encrypted_tlvs@), intro_node_blinding_point, keysend_preimage } }
     pub fn new_trampoline_entry(amt_to_forward: u64, outgoing_cltv_value: u32, recipient_onion: &RecipientOnionFields, packet: TrampolineOnionPacket,
-        current_path_key: Option<PublicKey>) -> Result<Payload, APIError>
-    { Ok(Payload::TrampolineEntrypoint { amt_to_forward, outgoing_cltv_value }) }
+        current_path_key: Option<PublicKey>) -> (r: Result<Payload, APIError>)
+        ensures r == Ok::<Payload, APIError>(Payload::TrampolineEntrypoint { amt_to_forward, outgoing_cltv_value, trampoline_packet: packet, current_path_key })
+    { Ok(Payload::TrampolineEntrypoint { amt_to_forward, outgoing_cltv_value, trampoline_packet: packet, current_path_key }) }
 }
 #[verifier::external_body]
 pub fn push_back(out: &mut Vec<Payload>, p: Payload) ensures final(out)@ == old(out)@.push(p) { out.push(p) }
@@ -114,7 +119,7 @@ pub open spec fn fee_sum(hops: Seq<RouteHop>, from: int) -> int decreases hops.l
 pub open spec fn delta_sum(hops: Seq<RouteHop>, from: int) -> int decreases hops.len() - from {
     if from >= hops.len() { 0 } else { hops[from].cltv_expiry_delta as int + delta_sum(hops, from + 1) }
 }
-// the instructions hop i must find in its layer
+// the instructions hop i must find in its layer (path without a tail)
 pub open spec fn expected_payload(hops: Seq<RouteHop>, height: int, i: int) -> Payload {
     if i == hops.len() - 1 {
         Payload::Receive { sender_intended_htlc_amt_msat: hops[i].fee_msat, cltv_expiry_height: (height + hops[i].cltv_expiry_delta) as u32 }
@@ -129,11 +134,79 @@ pub proof fn lemma_sums_nonneg(hops: Seq<RouteHop>, from: int)
     decreases hops.len() - from
 { if from < hops.len() { lemma_sums_nonneg(hops, from + 1); } }
 
+// ---- the same with a tail behind the last unblinded hop: a blinded path, or a trampoline packet (sent or forwarded) ----
+// what is delivered past the last unblinded hop in addition to that hop's own fee_msat
+pub open spec fn tail_value<'a>(t: Option<TailDetails<'a>>) -> int {
+    match t {
+        Some(TailDetails::Blinded { final_value_msat, .. }) => final_value_msat as int,
+        Some(TailDetails::SendToTrampoline { final_value_msat, .. }) => final_value_msat as int,
+        _ => 0,
+    }
+}
+// the height the expiries are counted from: the current height, or the expiry the next trampoline was promised
+pub open spec fn cltv_base<'a>(t: Option<TailDetails<'a>>, height: int) -> int {
+    match t { Some(TailDetails::ForwardToTrampoline { trampoline_expiry_height, .. }) => trampoline_expiry_height as int, _ => height }
+}
+// a forwarded trampoline packet fixes the expiry of the last hop's HTLC: that hop's own delta is not added
+pub open spec fn last_delta_counts<'a>(t: Option<TailDetails<'a>>) -> bool { !(t matches Some(TailDetails::ForwardToTrampoline { .. })) }
+pub open spec fn dsum<'a>(hops: Seq<RouteHop>, from: int, t: Option<TailDetails<'a>>) -> int {
+    delta_sum(hops, from) - (if !last_delta_counts(t) && from <= hops.len() - 1 { hops[hops.len() - 1].cltv_expiry_delta as int } else { 0 })
+}
+pub open spec fn fwd_payload<'a>(hops: Seq<RouteHop>, t: Option<TailDetails<'a>>, height: int, j: int) -> Payload {
+    Payload::Forward { short_channel_id: hops[j + 1].short_channel_id, amt_to_forward: (tail_value(t) + fee_sum(hops, j + 1)) as u64,
+                       outgoing_cltv_value: (cltv_base(t, height) + dsum(hops, j + 1, t)) as u32 }
+}
+pub open spec fn blinded_payload(bh: Seq<BlindedHop>, bp: PublicKey, fv: u64, total: u64, cltv: u32, keysend: Option<PaymentPreimage>, i: int) -> Payload {
+    if i == bh.len() - 1 {
+        Payload::BlindedReceive { sender_intended_htlc_amt_msat: fv, total_msat: total, cltv_expiry_height: cltv, encrypted_tlvs: Ghost(bh[i].encrypted_payload@),
+                                  intro_node_blinding_point: if i == 0 { Some(bp) } else { None }, keysend_preimage: keysend }
+    } else {
+        Payload::BlindedForward { encrypted_tlvs: Ghost(bh[i].encrypted_payload@), intro_node_blinding_point: if i == 0 { Some(bp) } else { None } }
+    }
+}
+pub open spec fn blinded_payloads(bh: Seq<BlindedHop>, bp: PublicKey, fv: u64, total: u64, cltv: u32, keysend: Option<PaymentPreimage>) -> Seq<Payload> {
+    Seq::new(bh.len(), |i: int| blinded_payload(bh, bp, fv, total, cltv, keysend, i))
+}
+// the payloads behind the forwarding payloads: what the last unblinded hop and everything after it must find
+pub open spec fn tail_payloads<'a>(t: Option<TailDetails<'a>>, last: RouteHop, fields: RecipientOnionFields, height: u32, keysend: Option<PaymentPreimage>) -> Seq<Payload> {
+    match t {
+        Some(TailDetails::Blinded { hops, blinding_point, final_value_msat, excess_final_cltv_expiry_delta }) =>
+            blinded_payloads(hops@, blinding_point, final_value_msat, fields.total_mpp_amount_msat, (height + excess_final_cltv_expiry_delta) as u32, keysend),
+        Some(TailDetails::SendToTrampoline { trampoline_packet, final_value_msat }) =>
+            seq![Payload::TrampolineEntrypoint { amt_to_forward: (final_value_msat + last.fee_msat) as u64, outgoing_cltv_value: (height + last.cltv_expiry_delta) as u32,
+                                                 trampoline_packet, current_path_key: None }],
+        Some(TailDetails::ForwardToTrampoline { trampoline_packet, current_path_key, trampoline_expiry_height }) =>
+            seq![Payload::TrampolineEntrypoint { amt_to_forward: last.fee_msat, outgoing_cltv_value: trampoline_expiry_height, trampoline_packet, current_path_key }],
+        None => seq![Payload::Receive { sender_intended_htlc_amt_msat: last.fee_msat, cltv_expiry_height: (height + last.cltv_expiry_delta) as u32 }],
+    }
+}
+pub open spec fn fwd_payloads<'a>(hops: Seq<RouteHop>, t: Option<TailDetails<'a>>, height: int, from: int) -> Seq<Payload> {
+    Seq::new((hops.len() - 1 - from) as nat, |k: int| fwd_payload(hops, t, height, from + k))
+}
+pub open spec fn expected_out<'a>(hops: Seq<RouteHop>, t: Option<TailDetails<'a>>, fields: RecipientOnionFields, height: u32, keysend: Option<PaymentPreimage>) -> Seq<Payload> {
+    fwd_payloads(hops, t, height as int, 0) + tail_payloads(t, hops[hops.len() - 1], fields, height, keysend)
+}
+pub open spec fn tail_not_expired<'a>(t: Option<TailDetails<'a>>, height: u32) -> bool {
+    match t { Some(TailDetails::ForwardToTrampoline { trampoline_expiry_height, .. }) => trampoline_expiry_height >= height, _ => true }
+}
+pub open spec fn tail_is_well_formed<'a>(t: Option<TailDetails<'a>>, height: u32) -> bool {
+    match t {
+        Some(TailDetails::Blinded { hops, final_value_msat, excess_final_cltv_expiry_delta, .. }) =>
+            hops@.len() >= 1 && final_value_msat <= 21000000 * 100000000 * 1000 && height + excess_final_cltv_expiry_delta <= u32::MAX,
+        Some(TailDetails::SendToTrampoline { final_value_msat, .. }) => final_value_msat <= 21000000 * 100000000 * 1000,
+        _ => true,
+    }
+}
+
 //@extract lightning/src/ln/onion_utils.rs :: fn build_onion_payloads_callback
 //@rw R5
     fn build_onion_payloads_callback<'a, 'b, H, F, OP>( hops: H, mut blinded_tail: Option<TailDetails<'a>>, recipient_onion: &'a RecipientOnionFields, cur_block_height: u32, keysend_preimage: &Option<PaymentPreimage>, invoice_request: Option<&'a InvoiceRequest>, mut callback: F, ) -> Result<(u64, u32), APIError> where $w:any {
 //@with
+    #[verifier::loop_isolation(false)]
     fn build_onion_payloads_callback<'a>( hops: &Vec<RouteHop>, blinded_tail_: Option<TailDetails<'a>>, recipient_onion: &'a RecipientOnionFields, cur_block_height: u32, keysend_preimage: &Option<PaymentPreimage>, invoice_request: Option<&'a InvoiceRequest>, out: &mut Vec<Payload>, ) -> Result<(u64, u32), APIError> {
+        let ghost tail0 = blinded_tail_;
+        let ghost route = hops@;
+        let ghost n = hops@.len() as int;
         let mut blinded_tail = blinded_tail_;
 //@rw R6
     for (idx, hop) in hops.rev().enumerate() { $body:any }
@@ -141,34 +214,51 @@ pub proof fn lemma_sums_nonneg(hops: Seq<RouteHop>, from: int)
     let mut idx: usize = 0;
     while idx < hops.len()
         invariant
-            blinded_tail is None, hops@.len() >= 1, forall|k: int| 0 <= k < hops@.len() ==> (#[trigger] hops@[k]).fee_msat <= 21000000 * 100000000 * 1000, hops@[hops@.len() - 1].fee_msat > 0, old(out)@.len() == 0, cur_block_height < 500000000,
-            idx <= hops@.len(),
-            out@.len() == idx,
-            idx > 0 ==> cur_value_msat > 0,
-            cur_value_msat as int == fee_sum(hops@, hops@.len() - idx), cur_value_msat < 21000000 * 100000000 * 1000,
-            cur_cltv as int == cur_block_height + delta_sum(hops@, hops@.len() - idx), cur_cltv < 500000000,
-            idx > 0 ==> last_hop_id == Some(hops@[hops@.len() - idx].short_channel_id),
-            forall|k: int| 0 <= k < idx ==> out@[k] == expected_payload(hops@, cur_block_height as int, hops@.len() - idx + k),
-        decreases hops@.len() - idx
+            hops@ == route, n == route.len(), n >= 1,
+            idx <= n,
+            idx == 0 ==> blinded_tail == tail0 && out@.len() == 0 && cur_value_msat == 0 && cur_cltv == cur_block_height && last_hop_id is None,
+            idx > 0 ==> blinded_tail is None && tail_not_expired(tail0, cur_block_height),
+            idx > 0 ==> cur_value_msat > 0 && cur_value_msat as int == tail_value(tail0) + fee_sum(route, n - idx),
+            cur_value_msat < 21000000 * 100000000 * 1000,
+            idx > 0 ==> cur_cltv as int == cltv_base(tail0, cur_block_height as int) + dsum(route, n - idx, tail0),
+            cur_cltv < 500000000,
+            idx > 0 ==> last_hop_id == Some(route[n - idx].short_channel_id),
+            idx > 0 ==> out@ =~= fwd_payloads(route, tail0, cur_block_height as int, n - idx) + tail_payloads(tail0, route[n - 1], *recipient_onion, cur_block_height, *keysend_preimage),
+        decreases n - idx
     {
         let hop = &hops[hops.len() - 1 - idx];
-        proof { lemma_sums_nonneg(hops@, hops@.len() - idx); }
+        proof { lemma_sums_nonneg(route, n - idx); lemma_sums_nonneg(route, n - idx - 1); }
         let ghost out0 = out@;
         $body
+        proof {
+            if idx > 0 {
+                assert(fwd_payloads(route, tail0, cur_block_height as int, n - idx - 1) =~= seq![fwd_payload(route, tail0, cur_block_height as int, n - idx - 1)] + fwd_payloads(route, tail0, cur_block_height as int, n - idx));
+            } else {
+                assert(fwd_payloads(route, tail0, cur_block_height as int, n - 1) =~= Seq::<Payload>::empty());
+            }
+        }
         idx = idx + 1;
     }
 //@rw R6
     for (i, blinded_hop) in hops.iter().enumerate() { $body:any }
 //@with
     let mut i: usize = 0;
+    let ghost bh = hops@;
+    let ghost bp0 = blinding_point->Some_0;
+    let ghost expected_tail = blinded_payloads(bh, bp0, final_value_msat, recipient_onion.total_mpp_amount_msat, (cur_block_height + excess_final_cltv_expiry_delta) as u32, *keysend_preimage);
     while i < hops.len()
-        invariant false
-        decreases hops.len() - i
+        invariant
+            hops@ == bh, hops_len == bh.len(), bh.len() >= 1, i <= bh.len(),
+            blinding_point == (if i == 0 { Some(bp0) } else { None::<PublicKey> }),
+            out@ =~= expected_tail.subrange(0, i as int),
+            cur_value_msat == (if i == bh.len() { final_value_msat } else { 0 }),
+        decreases bh.len() - i
     {
         let blinded_hop = &hops[i];
         $body
         i = i + 1;
     }
+    proof { assert(expected_tail.subrange(0, bh.len() as int) =~= expected_tail); }
 //@rw R5 *
     callback( PayloadCallbackAction::PushBack, $p, );
 //@with
@@ -187,17 +277,24 @@ pub proof fn lemma_sums_nonneg(hops: Seq<RouteHop>, from: int)
     APIError::InvalidRoute { err: () }
 //@ret r
 //@requires
-    blinded_tail_ is None,
     old(out)@.len() == 0,
-    hops@.len() >= 1, hops@[hops@.len() - 1].fee_msat > 0,
+    hops@.len() >= 1,
     cur_block_height < 500000000,
     forall|k: int| 0 <= k < hops@.len() ==> (#[trigger] hops@[k]).fee_msat <= 21000000 * 100000000 * 1000,
+    tail_is_well_formed(blinded_tail_, cur_block_height),
+    // something is delivered past the last unblinded hop
+    tail_value(blinded_tail_) + hops@[hops@.len() - 1].fee_msat > 0,
 //@ensures P C14 every-hop-finds-exactly-its-amount-to-forward-its-outgoing-expiry-and-the-next-channel-and-the-last-hop-its-final-amount
-    r is Ok ==> final(out)@.len() == hops@.len()
+    r is Ok && blinded_tail_ is None ==> final(out)@.len() == hops@.len()
         && (forall|i: int| 0 <= i < hops@.len() ==> final(out)@[i] == expected_payload(hops@, cur_block_height as int, i))
         && r->Ok_0.0 as int == fee_sum(hops@, 0) && r->Ok_0.1 as int == cur_block_height + delta_sum(hops@, 0),
+//@ensures P C14 with-a-blinded-or-trampoline-tail-every-unblinded-hop-forwards-what-the-tail-needs-and-the-tail-finds-its-own-final-amount-and-expiry
+    r is Ok ==> final(out)@ =~= expected_out(hops@, blinded_tail_, *recipient_onion, cur_block_height, *keysend_preimage)
+        && r->Ok_0.0 as int == tail_value(blinded_tail_) + fee_sum(hops@, 0)
+        && r->Ok_0.1 as int == cltv_base(blinded_tail_, cur_block_height as int) + dsum(hops@, 0, blinded_tail_),
+    !tail_not_expired(blinded_tail_, cur_block_height) ==> r is Err,
 //@ensures P C14 totals-stay-below-the-protocol-limits
-    r is Ok ==> fee_sum(hops@, 0) < 21000000 * 100000000 * 1000 && cur_block_height + delta_sum(hops@, 0) < 500000000,
+    r is Ok ==> r->Ok_0.0 < 21000000 * 100000000 * 1000 && r->Ok_0.1 < 500000000,
 //@mutant payloads_in_reverse_order
     callback(PayloadCallbackAction::PushFront, payload);
 //@with
@@ -210,6 +307,26 @@ pub proof fn lemma_sums_nonneg(hops: Seq<RouteHop>, from: int)
     cur_value_msat += hop.fee_msat();
 //@with
     if idx != 1 { cur_value_msat += hop.fee_msat(); }
+//@mutant blinded_recipient_told_the_current_height_as_its_expiry
+    cur_block_height + excess_final_cltv_expiry_delta,
+//@with
+    cur_block_height,
+//@mutant blinding_point_handed_to_every_blinded_hop
+    OP::new_blinded_forward( &blinded_hop.encrypted_payload, blinding_point.take(), ),
+//@with
+    OP::new_blinded_forward( &blinded_hop.encrypted_payload, blinding_point, ),
+//@mutant amount_for_the_blinded_recipient_not_added_to_what_is_forwarded
+    if i == hops_len - 1 { cur_value_msat += final_value_msat;
+//@with
+    if i == hops_len - 1 {
+//@mutant forwarded_trampoline_packet_keeps_the_last_hops_delta
+    hop_cltv_delta = 0;
+//@with
+    hop_cltv_delta = hop_cltv_delta;
+//@mutant trampoline_entry_point_told_only_the_final_amount
+    final_value_msat + hop.fee_msat(), declared_incoming_cltv,
+//@with
+    final_value_msat, declared_incoming_cltv,
 //@end
 
 // ---- re-wrapping a failure at a relaying hop: when the attribution data (hold times) survives ----
